@@ -28,8 +28,8 @@ CORR_HEADER = ("From Coq Require Import String ZArith QArith List Bool.\n"
                "From ACN Require Import Base.Num Model.Feasible Gen.Sites Model.Sites.\nImport ListNotations.\n"
                "Open Scope Q_scope.\n")
 CHECK_FN = "check_c16"
-RULE = ("all 42 dumped instances (3 sites x basic/real EVSEs x 3 capacity settings at 208 V; voltage arguments 200/120/240; "
-        "the alias CaltechACN; degenerate capacities 0 kW and 1e9 kW) are built first, each with an Interface, a JSON-reloaded "
+RULE = ("all 46 dumped instances (3 sites x basic/real EVSEs x 3 capacity settings at 208 V; voltage arguments 200/120/240; "
+        "the alias CaltechACN; degenerate capacities 0 kW and 1e9 kW; equal values for independent parameters, e.g. JPL 45/45) are built first, each with an Interface, a JSON-reloaded "
         "twin and an Interface on the twin, then queried with no construction in between: corpus witnesses, a prelude per site "
         "(larger/smaller transformer back to back with a balanced schedule just inside the larger one's limits; long horizons "
         "T=128..257 with one over-limit column at 127/255/last), then round-robin rounds (one schedule width per round incl. 0 "
